@@ -276,14 +276,24 @@ func runC12(c *fw.Case) (o fw.Outcome) {
 				o.Fail("panic:"+fw.TopRepoFrame(st), "extraction panicked on a well-formed input: %v\n nas{%s}=%x\n transfer{%s}=%x\n%s", rec, d1, nasPdu, d2, transfer, clipS(st, 800))
 			}
 		}()
-		got := stgutg.DecodePDUSessionNASPDU(append([]byte(nil), nasPdu...))
+		nview, ndmg := guarded(r, nasPdu)
+		got := stgutg.DecodePDUSessionNASPDU(nview)
 		o.Count("nas_extractions", 1)
+		if d := ndmg(false); d != "" {
+			o.Fail("input-buffer-written", "DecodePDUSessionNASPDU: %s", d)
+			return
+		}
 		if !got.Equal(ueIP) {
 			o.Fail("wrong-ue-address", "DecodePDUSessionNASPDU returns %v, the network encoded PDU address %v (Accept with %s)\n nas=%x", got, ueIP, d1, nasPdu)
 			return
 		}
-		gt, gu := stgutg.DecodePDUSessionResourceSetupRequestTransfer(append([]byte(nil), transfer...))
+		tview, tdmg := guarded(r, transfer)
+		gt, gu := stgutg.DecodePDUSessionResourceSetupRequestTransfer(tview)
 		o.Count("transfer_extractions", 1)
+		if d := tdmg(false); d != "" {
+			o.Fail("input-buffer-written", "DecodePDUSessionResourceSetupRequestTransfer: %s", d)
+			return
+		}
 		if gt != teid || !gu.Equal(upf) {
 			o.Fail("wrong-tunnel", "DecodePDUSessionResourceSetupRequestTransfer returns TEID %#x UPF %v, the network encoded TEID %#x UPF %v (%s)\n transfer=%x", gt, gu, teid, upf, d2, transfer)
 			return
